@@ -509,6 +509,16 @@ def draw_op(data, run, weights=None, sym_bias=None):
             ok, pv = lexical.python_value_for(a['type'], txt)
             if not ok:
                 pv = txt
+            elif isinstance(pv, (int, float)) and not isinstance(pv, bool) and data.draw(st.integers(0, 3)) == 0:
+                # a value that compares (and hashes) equal but has another type: 1 / 1.0 / True - whether it is
+                # accepted must not depend on which spelling some element saw before
+                alts = [float(pv)] if isinstance(pv, int) else ([int(pv)] if pv == int(pv) else [])
+                if pv == 1:
+                    alts.append(True)
+                if pv == 0:
+                    alts.append(False)
+                if alts:
+                    pv = data.draw(st.sampled_from(alts))
         else:
             pv = data.draw(st.sampled_from((lexical.invalid_texts(a['type']) or []) + [None, 2.5, -3, 'zzz'] + EXTREME))
             if pv is None:
